@@ -5,6 +5,8 @@ import Frp.Model.Reconnect
 import Frp.Model.SessEnd
 import Frp.Model.Rereg
 import Frp.Model.Dispatch
+import Frp.Model.SessLive
+import Frp.Model.HbConf
 import Frp.Props.C14
 /-
   Driver engine "wait" (C14): replays the harness trace of the real back-off manager, the real
@@ -35,6 +37,7 @@ structure WaitState where
   shorts : List Nat := []                 -- times (ns) of observed delays shorter than any non-fast delay
   wds    : List (String × Nat × Bool × String) := []    -- id ↦ (T seconds, heartbeat scope, script)
   cws    : List (String × Nat × Nat × String × List String) := []   -- id ↦ (I, T, initial proxy set, script)
+  hbs    : List (String × Bool × Int × Int × Nat) := []   -- id ↦ (tcpMux as written or defaulted, written I, written T (0 = not written), K)
 
 def nats (ts : List String) : Option (List Nat) := ts.mapM String.toNat?
 
@@ -214,6 +217,7 @@ def wdEvents (scope : Bool) (sent : List (Nat × String)) : List (Nat × Livenes
     | "n" => some (t, Liveness.Ev.other (kind "NewProxy"))
     | "e" => some (t, Liveness.Ev.other (kind "NewProxy"))
     | "c" => some (t, Liveness.Ev.other (kind "CloseProxy"))
+    | "C" => some (t, Liveness.Ev.other (kind "CloseProxy"))
     | "h" => some (t, Liveness.Ev.other (kind "NatHoleReport"))
     | _ => none)).foldr wdInsert []
 
@@ -225,6 +229,8 @@ inductive WdItem
   | ping
   | newProxy (phase : Nat) (hold : Nat)     -- phase 0..3 = plug / checked / ran / added
   | cut
+  | user (k : Nat)                          -- k users connect to the proxy registered last and stay
+  | closeLast                               -- CloseProxy of the proxy registered last
 
 def parseWdItem (s : String) : Option WdItem :=
   match s.toList with
@@ -235,6 +241,11 @@ def parseWdItem (s : String) : Option WdItem :=
   | 'e' :: _ => some .ping
   | 'h' :: _ => some .ping
   | 'x' :: _ => some .cut
+  | 'C' :: _ => some .closeLast
+  | 'u' :: rest =>
+    match (String.ofList rest).splitOn "/" with
+    | [_, k] => k.toNat?.map .user
+    | _ => none
   | 'n' :: rest =>
     match (String.ofList rest).splitOn "/" with
     | [_, ph, hold] =>
@@ -251,23 +262,46 @@ def parseWdScript (s : String) : Option (List WdItem) :=
 /-- the schedule of the session model that the scripted scenario produces: the first `sentN`
     registrations are written, read and run; a held one is overtaken by the end of the connection
     (silence ⇒ watchdog, or cut) at its hold point; then the read fails and `worker()` walks -/
-def wdSchedule (items : List WdItem) (sentN : Nat) : List SessEnd.Lbl := Id.run do
-  let mut ls : List SessEnd.Lbl := []
+def wdSchedule (items : List WdItem) (sentN : Nat) : List SessLive.Lbl := Id.run do
+  let mut ls : List SessLive.Lbl := []
   let mut j := 0
   let mut cutDone := false
   for it in items do
     match it with
     | .newProxy ph hold =>
       if j < sentN then
-        ls := ls ++ [.send (.newProxy j), .read false] ++ List.replicate ph (.adv false)
+        ls := ls ++ [.base (.send (.newProxy j)), .base (.read false)] ++ List.replicate ph (.base (.adv false))
         if hold > 0 ∧ !cutDone then
-          ls := ls ++ [.cut]
+          ls := ls ++ [.base .cut]
           cutDone := true
-        ls := ls ++ List.replicate (4 - ph) (.adv false)
+        ls := ls ++ List.replicate (4 - ph) (.base (.adv false))
         j := j + 1
-    | .ping => ls := ls ++ [.send .other, .read false]
+    | .ping => ls := ls ++ [.base (.send .other), .base (.read false)]
     | .cut => pure ()
-  return ls ++ (if cutDone then [] else [.cut]) ++ [.read true, .teardown]
+    | .user k =>
+      -- users of the proxy registered last: bridged to work connections, and staying (no `userEnd`: the peer is
+      -- silent and keeps its sockets, the users keep theirs)
+      if j > 0 then ls := ls ++ List.replicate k (.userConn (j - 1))
+    | .closeLast =>
+      if j > 0 then ls := ls ++ [.base (.send (.closeProxy (j - 1))), .base (.read false)]
+  return ls ++ (if cutDone then [] else [.base .cut]) ++ [.base (.read true), .base .teardown]
+
+/-- what was observed of the live traffic: users opened / bridged / still open, and (read from the server's tables 600 ms
+    after the close) the run id still in the control manager / number of the session's names still in the proxy manager -/
+structure WdLive where
+  users : Nat
+  bridged : Nat
+  stillOpen : Option Nat
+  inCtl : Option Nat
+  inPx : Option Nat
+
+def wdParseLive (lv tb : String) : Option WdLive :=
+  match ((lv.drop 3).toString).splitOn "/", ((tb.drop 3).toString).splitOn "/" with
+  | [k, b, o], [c, n] =>
+    match k.toNat?, b.toNat? with
+    | some k, some b => some ⟨k, b, o.toNat?, c.toNat?, n.toNat?⟩
+    | _, _ => none
+  | _, _ => none
 
 /-- `j:resp:rereg` -/
 def wdParsePx (s : String) : Option (List (String × String)) :=
@@ -278,7 +312,7 @@ def wdParsePx (s : String) : Option (List (String × String)) :=
     | _ => none)
 
 def wdCheck (T : Nat) (scope : Bool) (items : List WdItem) (kind : String) (c : Nat) (sent : List (Nat × String))
-    (pok perr : Nat) (px : List (String × String)) : Option String × Bool :=
+    (pok perr : Nat) (px : List (String × String)) (live : Option WdLive) : Option String × Bool :=
   let Tus := T * 1000000
   let cfg := Watchdog.serverCfg (Int.ofNat T) 1000000
   -- valid = plugin chain + VerifyPing pass: with the HeartBeats scope the key must match
@@ -295,9 +329,15 @@ def wdCheck (T : Nat) (scope : Bool) (items : List WdItem) (kind : String) (c : 
     else C14.detectHolds Tus 1000000 slackUs earlyTolUs last (if kind = "closed" then some c else none) c
   let propT := propAt last
   -- a session that is over holds nothing: the fresh session's registrations are accepted
-  let model := SessEnd.run (SessEnd.init C14.codeAsync) (wdSchedule items px.length)
+  -- (with the user connections of the scenario as state, and the `Close` the source has: C14.code_close_no_wait)
+  let model := (SessLive.run (SessLive.init C14.codeCloseWaits C14.codeAsync) (wdSchedule items px.length)).base
   let modelFree := model.torn && decide (SessEnd.Released model)
-  let propR := px.all (fun x => x.2 == "ok")
+  -- … and is gone from the server's tables, whatever user connections it was serving when it died
+  let wantUsers := items.foldl (fun a i => match i with | .user k => a + k | _ => a) 0
+  let propTab := match live with
+    | some l => (l.inCtl.getD 0 == 0) && (l.inPx.getD 0 == 0)
+    | none => true
+  let propR := px.all (fun x => x.2 == "ok") && propTab
   -- pongs: one per ping that was answered before the close; errors only for invalid pings
   let nValid := (evs.filter (fun e => e.2 == Watchdog.Ev.beat true)).length
   let nInvalid := evs.length - nValid
@@ -307,6 +347,11 @@ def wdCheck (T : Nat) (scope : Bool) (items : List WdItem) (kind : String) (c : 
     else if kind = "open" then some "expected-closed"
     else if kind = "cut" ∧ !hasCut then some "unexpected-cut"
     else if !propAt mlast then some s!"closed-in({mlast + Tus},{mlast + Tus + 1000000}+slack]"
+    else if wantUsers > 0 ∧ live.isNone then some "live-traffic-not-reported"
+    else if (match live with
+             | some l => decide (px.length > 0) && (l.users != wantUsers || l.bridged != wantUsers)
+             | none => false) then
+      some s!"users-bridged={wantUsers}"
     else if modelFree ∧ !propR then some "torn-down-session-holds-nothing"
     else if !modelFree then some "model-not-released"
     else if pok > nValid ∨ perr > nInvalid then some s!"pongs≤{nValid}/{nInvalid}"
@@ -315,20 +360,26 @@ def wdCheck (T : Nat) (scope : Bool) (items : List WdItem) (kind : String) (c : 
   (problem, propT && propR)
 
 def wdStep (st : WaitState) (id : String) (impl : String) : WaitState × Verdict :=
+  let go (st' : WaitState) (T : Nat) (scope : Bool) (items : List WdItem) (k c sent pok perr px : String)
+      (live : Option WdLive) : WaitState × Verdict :=
+    match c.toNat?, parseSent (sent.drop 5).toString, (pok.drop 4).toString.toNat?, (perr.drop 5).toString.toNat?,
+          wdParsePx (px.drop 3).toString with
+    | some c, some sent, some pok, some perr, some px =>
+      let (problem, prop) := wdCheck T scope items k c sent pok perr px live
+      match problem with
+      | none => (st', verdictOf impl impl (some prop))
+      | some p => (st', verdictOf p impl (some prop))
+    | _, _, _, _, _ => (st', .bad "wd-result")
   match st.wds.lookup id with
   | none => (st, verdictOf "unknown" impl)
   | some (T, scope, script) =>
     let st' := { st with wds := st.wds.filter (·.1 ≠ id) }
     match impl.splitOn " ", parseWdScript script with
-    | [k, c, sent, pok, perr, px], some items =>
-      match c.toNat?, parseSent (sent.drop 5).toString, (pok.drop 4).toString.toNat?, (perr.drop 5).toString.toNat?,
-            wdParsePx (px.drop 3).toString with
-      | some c, some sent, some pok, some perr, some px =>
-        let (problem, prop) := wdCheck T scope items k c sent pok perr px
-        match problem with
-        | none => (st', verdictOf impl impl (some prop))
-        | some p => (st', verdictOf p impl (some prop))
-      | _, _, _, _, _ => (st', .bad "wd-result")
+    | [k, c, sent, pok, perr, px], some items => go st' T scope items k c sent pok perr px none
+    | [k, c, sent, pok, perr, px, lv, tb], some items =>
+      match wdParseLive lv tb with
+      | some l => go st' T scope items k c sent pok perr px (some l)
+      | none => (st', .bad "wd-live")
     | _, none => (st', .bad "wd-script")
     | _, _ =>
       if impl.startsWith "infra" then (st', .skip "infra") else (st', verdictOf "closed …" impl (some false))
@@ -603,9 +654,119 @@ def cwStep (st : WaitState) (id : String) (impl : String) : WaitState × Verdict
       | none => (st', verdictOf "connection-records" impl (some false))
     | _, _ => (st', .bad "cw-script")
 
+/-! ### the heartbeat settings as written in a configuration text (Frp/Model/HbConf.lean, C14 part J) -/
+
+/-- a written value, `-` = not written (= 0 in the structure the text is unmarshalled into) -/
+def hbInt (s : String) : Option Int := if s = "-" then some 0 else s.toInt?
+
+/-- transport.tcpMux as written; not written = the default (on) -/
+def hbMux (s : String) : Bool := s ≠ "off"
+
+def hbParseEff (s : String) : Option (Int × Int) :=
+  match s.splitOn "/" with
+  | [a, b] => match a.toInt?, b.toInt? with
+    | some a, some b => some (a, b)
+    | _, _ => none
+  | _ => none
+
+/-- the promise read off what the loader produced: the timeout (ms) the watchdog will apply, none = no check -/
+def hbEffPromise (e : Int × Int) : Option Nat := if 0 < e.1 ∧ 0 < e.2 then some (e.2.toNat * 1000) else none
+
+def hbCfgClient (st : WaitState) (mux i t impl : String) : WaitState × Verdict :=
+  match hbInt i, hbInt t with
+  | some i, some t =>
+    let m := Watchdog.clientComplete (hbMux mux) i t
+    let valid := HbConf.clientValid m.1 m.2
+    -- (a timeout below the interval is refused: by the validation, or -- legacy ini -- already by the loader)
+    if !valid ∧ impl = "loaderr" then (st, verdictOf impl impl (some true)) else
+    let expect := s!"{m.1}/{m.2} {if valid then "ok" else "invalid"}"
+    -- the property on the loader's own result: the watchdog it configures is the one the written values promise
+    let prop := match impl.splitOn " " with
+      | [e, v] => match hbParseEff e with
+        | some e => hbEffPromise e == HbConf.clientPromise (hbMux mux) i t 1000 && ((v == "ok") == valid)
+        | none => false
+      | _ => false
+    (st, verdictOf expect impl (some prop))
+  | _, _ => (st, .bad "hbcfg")
+
+def hbCfgServer (st : WaitState) (mux t impl : String) : WaitState × Verdict :=
+  match hbInt t with
+  | some t =>
+    let m := Watchdog.serverComplete (hbMux mux) t
+    let prop := match impl.splitOn " " with
+      | [e, v] => match e.toInt? with
+        | some e => (if 0 < e then some (e.toNat * 1000) else none) == HbConf.serverPromise (hbMux mux) t 1000 && v == "ok"
+        | none => false
+      | _ => false
+    (st, verdictOf s!"{m} ok" impl (some prop))
+  | none => (st, .bad "hbcfg")
+
+def hbField (pre : String) (s : String) : Option String :=
+  if s.startsWith pre then some (s.drop pre.length).toString else none
+
+/-- a real frpc started from the text against a server that answers K pings and falls silent -/
+def hbStep (st : WaitState) (id : String) (impl : String) : WaitState × Verdict :=
+  match st.hbs.lookup id with
+  | none => (st, verdictOf "unknown" impl)
+  | some (mux, i, t, _k) =>
+    let st' := { st with hbs := st.hbs.filter (·.1 ≠ id) }
+    if impl.startsWith "infra" then (st', .skip "infra") else
+    let m := Watchdog.clientComplete mux i t
+    let valid := HbConf.clientValid m.1 m.2
+    let promise := HbConf.clientPromise mux i t 1000
+    let slackMs := 400
+    if !valid ∧ impl = "loaderr" then (st', verdictOf impl impl (some true)) else
+    match impl.splitOn " " with
+    | [e, "invalid"] =>
+      let effOk := (hbField "eff=" e).bind hbParseEff == some m
+      (st', verdictOf (if valid then "started" else impl) impl (some (!valid && effOk)))
+    | [e, pg, last, fin] =>
+      match (hbField "eff=" e).bind hbParseEff, hbField "pg=" pg, (hbField "last=" last).bind String.toNat? with
+      | some eff, some pg, some last =>
+        let closed := (hbField "closed=" fin).bind String.toNat?
+        let openAt := (hbField "open=" fin).bind String.toNat?
+        match closed, openAt with
+        | none, none => (st', .bad "hb-result")
+        | _, _ =>
+          let horizon := (closed <|> openAt).getD 0
+          let gaps := if pg = "-" then some [] else (pg.splitOn "/").mapM String.toNat?
+          -- the property on the implementation's own numbers: closed within (last + written timeout, + 1 s + slack], or
+          -- (no check promised) not closed at all
+          let propT := match promise with
+            | some T => C14.detectHolds T 1000 slackMs 30 last closed horizon
+            | none => closed.isNone
+          let propE := hbEffPromise eff == promise
+          let pingProblem : Option String := match gaps with
+            | none => some "ping-gaps-syntax"
+            | some gs =>
+              if !Watchdog.clientPings m.1 then (if gs.isEmpty then none else some "pings-while-interval≤0")
+              else match gs with
+                | [] => some "no-ping"
+                | g0 :: rest =>
+                  -- first ping at once, then every `interval` (a ping seen late makes the next measured gap shorter)
+                  let iv := m.1.toNat * 1000
+                  let r := rest.foldl (fun (acc : Nat × Bool) g =>
+                    (g + acc.1 - iv, acc.2 || decide (g + acc.1 + 5 < iv) || decide (g > iv + slackMs))) (g0, false)
+                  if g0 > slackMs then some "first-ping-late"
+                  else if r.2 then some "ping-gap"
+                  else none
+          let problem : Option String :=
+            if !valid then some "invalid"
+            else if eff ≠ m then some s!"eff={m.1}/{m.2}"
+            else if !propT then
+              (match promise with
+               | some T => some s!"close∈({last + T},{last + T + 1000}+slack]ms"
+               | none => some "no-liveness-close")
+            else pingProblem
+          match problem with
+          | none => (st', verdictOf impl impl (some (propT && propE)))
+          | some p => (st', verdictOf p impl (some (propT && propE)))
+      | _, _, _ => (st', .bad "hb-result")
+    | _ => (st', verdictOf "eff=… pg=… last=… closed=…" impl (some false))
+
 def waitStep (st : WaitState) (tok : List String) (impl : String) : WaitState × Verdict :=
   match tok with
-  | ["reset"] => ({ wds := st.wds, cws := st.cws }, verdictOf "-" impl)
+  | ["reset"] => ({ wds := st.wds, cws := st.cws, hbs := st.hbs }, verdictOf "-" impl)
   | "new" :: rest =>
     match (nats rest).bind optsOf with
     | some o => ({ st with o := o, have_ := true, lost := false, sts := [Backoff.init], prev := 0, shorts := [] }, verdictOf "ok" impl)
@@ -623,7 +784,19 @@ def waitStep (st : WaitState) (tok : List String) (impl : String) : WaitState ×
     match T.toNat? with
     | some T => ({ st with wds := (id, T, scope = "1", script) :: st.wds }, verdictOf "started" impl)
     | none => (st, .bad "wdstart")
+  | ["wdstart", id, T, scope, script, "mux"] =>
+    -- tcpMux on: the same session model (work connections are streams; the model does not distinguish)
+    match T.toNat? with
+    | some T => ({ st with wds := (id, T, scope = "1", script) :: st.wds }, verdictOf "started" impl)
+    | none => (st, .bad "wdstart")
   | ["wdwait", id] => wdStep st id impl
+  | ["hbcfg", "c", _, mux, i, t] => hbCfgClient st mux i t impl
+  | ["hbcfg", "s", _, mux, t] => hbCfgServer st mux t impl
+  | ["hbstart", id, _, mux, i, t, k] =>
+    match hbInt i, hbInt t, k.toNat? with
+    | some i, some t, some k => ({ st with hbs := (id, hbMux mux, i, t, k) :: st.hbs }, verdictOf "started" impl)
+    | _, _, _ => (st, .bad "hbstart")
+  | ["hbwait", id] => hbStep st id impl
   | ["cwstart", id, I, T, set0, script] =>
     match I.toNat?, T.toNat? with
     | some I, some T => ({ st with cws := (id, I, T, set0, script.splitOn ",") :: st.cws }, verdictOf "started" impl)
